@@ -330,6 +330,7 @@ type State struct {
 	u      *Universe
 	logs   map[*AObj][]logEntry // per modelled bytes.Buffer: what was written, in order (nil entry list = unknown)
 	written map[*AObj]bool      // objects some element/field of which has been written since allocation
+	first   map[*AObj]logEntry  // first item written to each modelled bytes.Buffer
 	itv    map[atomID]Itv
 	nils   map[symID]nilness
 	facts  map[string]*Lin
@@ -339,7 +340,7 @@ type State struct {
 }
 
 func newState(u *Universe) *State {
-	return &State{u: u, written: map[*AObj]bool{}, logs: map[*AObj][]logEntry{}, itv: map[atomID]Itv{}, nils: map[symID]nilness{}, facts: map[string]*Lin{}, mem: map[*AObj]map[string]AVal{}, guards: map[symID]*Guard{}}
+	return &State{u: u, first: map[*AObj]logEntry{}, written: map[*AObj]bool{}, logs: map[*AObj][]logEntry{}, itv: map[atomID]Itv{}, nils: map[symID]nilness{}, facts: map[string]*Lin{}, mem: map[*AObj]map[string]AVal{}, guards: map[symID]*Guard{}}
 }
 
 func (s *State) clone() *State {
@@ -370,11 +371,17 @@ func (s *State) clone() *State {
 	for k := range s.written {
 		n.written[k] = true
 	}
+	for k, v := range s.first {
+		n.first[k] = v
+	}
 	return n
 }
 
 func (s *State) appendLog(o *AObj, e logEntry) {
 	old, ok := s.logs[o]
+	if ok && len(old) == 0 {
+		s.first[o] = e
+	}
 	if !ok {
 		return // unknown log stays unknown
 	}
@@ -619,6 +626,11 @@ func joinStates(a, b *State) *State {
 	for o, la := range a.logs {
 		if lb, ok := b.logs[o]; ok && sameLog(la, lb) {
 			n.logs[o] = la
+		}
+	}
+	for o, fa := range a.first {
+		if fb, ok := b.first[o]; ok && sameLog([]logEntry{fa}, []logEntry{fb}) {
+			n.first[o] = fa
 		}
 	}
 	for o := range a.written {
